@@ -39,7 +39,7 @@ def base_mesh(r):
     elif kind == 'rect':
         topo, x = mesh.rectilinear([numpy.linspace(0, 1, n[0] + 1), numpy.linspace(0, 1, n[1] + 1)])
     elif kind == 'periodic':
-        topo, x = mesh.rectilinear([numpy.linspace(0, 1, n[0] + 2), numpy.linspace(0, 1, n[1] + 1)], periodic=[0])
+        topo, x = mesh.rectilinear([numpy.linspace(0, 1, n[0] + 4), numpy.linspace(0, 1, n[1] + 1)], periodic=[0])   # >= 4 elements in the periodic direction: fewer make a spline overlap itself
     elif kind == 'rect3':
         topo, x = mesh.rectilinear([numpy.linspace(0, 1, min(n[0], 2) + 1), numpy.linspace(0, 1, min(n[1], 2) + 1), numpy.linspace(0, 1, 2)])
     elif kind == 'tri':
